@@ -29,7 +29,7 @@ def profile(name, **kw):
         callers=(1, 3), small=False, check_all_every=16, nontarget=True,
         tx=dict(edit=6, query=3, derive_edit=0, relabel=0, twin=0, pair=0, mutant=0,
                 enum=0, enant=0, react=0, persist=0, algebra=0, faults=0, flip=0,
-                isomers=0, symnum=0, wlpair=0, large=0, hubs=0, copies=0, dense=0, changeshare=0, build=1),
+                isomers=0, symnum=0, wlpair=0, large=0, hubs=0, copies=0, dense=0, changeshare=0, known=0, build=1),
         fault_rate=(0.0, 0.15),
     )
     tx = dict(base["tx"])
@@ -53,7 +53,7 @@ profile("C06", tx=dict(edit=3, enant=6, derive_edit=2, build=2), small=True, max
         classes=("SMG", "SCRG"))
 profile("C08", tx=dict(edit=2, react=8, derive_edit=2, build=1), classes=("MG", "SMG", "CRG", "SCRG"), max_atoms=(3, 8))
 profile("C15", tx=dict(edit=5, persist=8, query=1, relabel=1, derive_edit=1, large=0.1, build=2))
-profile("C16", tx=dict(edit=3, pair=4, mutant=4, flip=4, isomers=4, react=2, hubs=0.5, build=3), small=True, max_atoms=(2, 8),
+profile("C16", tx=dict(edit=3, pair=4, mutant=4, flip=4, isomers=4, react=2, hubs=0.5, known=0.15, build=3), small=True, max_atoms=(2, 8),
         callers=(2, 3))
 profile("C17", tx=dict(edit=4, algebra=8, query=1, large=0.08, dense=0.5, build=2), max_atoms=(3, 14))
 
@@ -1415,6 +1415,29 @@ class Gen:
                 yield dict(k="drop", s=d)
         if s in self.w.slots and not self.w.slots[s].locks:
             yield dict(k="drop", s=s)
+
+    def tx_known(self):
+        """re-confirmation of the open finding KF-unfaithful-stereo-hash: its
+        recorded example, under fresh identifiers"""
+        rng = self.rng
+        if len(self.w.slots) + 2 > self.w.max_slots:
+            for s in self.graphs(unlocked=True)[:2]:
+                yield dict(k="drop", s=s)
+        base = rng.choice((0, 10, -20, 500))
+        A, Bc, C, H = rng.sample(range(base, base + 8), 4)
+        slots = []
+        for role in (None, "FORMED"):
+            s = self.slot_id()
+            slots.append(s)
+            yield dict(k="spec", dst=s, cls="SCRG", reserved=True,
+                       atoms=[[A, 6], [Bc, 6], [C, 6], [H, 1]],
+                       bonds=[[Bc, A, "BROKEN"], [C, Bc, role]],
+                       astereo=[["Tetrahedral", [Bc, None, C, A, None], 1], ["Tetrahedral", [C, None, None, Bc, H], 1]])
+        if all(self.w.graph(x) is not None for x in slots):
+            yield dict(k="probe_pair", s1=slots[0], s2=slots[1])
+        for x in slots:
+            if x in self.w.slots:
+                yield dict(k="drop", s=x)
 
     def tx_hubs(self):
         """two molecules with hypervalent centres (7 neighbours, no descriptor)
